@@ -303,7 +303,9 @@ Proof.
   unfold keep_promise. destruct (mid_trip (t_hist t)); [|reflexivity].
   rewrite tsel_spec. rewrite El. cbn [open_run]. rewrite Hxe.
   destruct (Z.eqb_spec (fstart x) 0) as [C|_]; [contradiction|]. cbn [negb andb].
-  rewrite (open_run_stop rest Hstop). unfold sum_dist, open_start. cbn [fold_left last getf nth].
+  unfold sum_dist, open_start. cbn [open_run]. rewrite Hxe.
+  destruct (Z.eqb_spec (fstart x) 0) as [C|_]; [contradiction|]. cbn [negb andb].
+  rewrite (open_run_stop rest Hstop). cbn [fold_left last getf nth].
   destruct (book_count_spec mx (t_book t) HI) as (Hc1 & Hc2 & Hc3).
   assert (Hnone : forall st en (dd : K),
             (st = fstart x /\ en = fend x /\ dd = kadd N (k0 N) (fdist x)) \/ (st = 0 /\ en = 0) ->
@@ -321,10 +323,10 @@ Proof.
     - (* an older promise ended before it started *)
       right. left. pose proof (inv_sep mx _ HI i k L Hk10 Hkne) as Hs. rewrite Ets in Hs. lia. }
   destruct (kltb N (k0 N) (kadd N (k0 N) (fdist x))).
-  - unfold keep. destruct (keqb N _ (k0 N)); [reflexivity|].
-    rewrite (Hnone (fstart x) (fend x) _ ltac:(left; auto)). reflexivity.
-  - unfold keep. destruct (keqb N (k0 N) (k0 N)); [reflexivity|].
-    rewrite (Hnone 0 0 (k0 N) ltac:(right; auto)). reflexivity.
+  - unfold keep. rewrite (Hnone (fstart x) (fend x) _ ltac:(left; auto)).
+    match goal with |- context [if ?c then inr EInvalidArgument else _] => destruct c end; reflexivity.
+  - unfold keep. rewrite (Hnone 0 0 (k0 N) ltac:(right; auto)).
+    match goal with |- context [if ?c then inr EInvalidArgument else _] => destruct c end; reflexivity.
 Qed.
 
 Lemma away_update d clk (t : traveller) pend (p : params N) share :
@@ -355,16 +357,350 @@ Proof.
   { rewrite Eh. unfold hist_after_update. rewrite Hp, Eu. reflexivity. }
   set (x' := newest_mark tp now x) in *.
   assert (Hx' : open_leg x' /\ fstart x' = fstart x /\ fend x' = fend x /\ fdist x' = fdist x /\ ffrom x' = ffrom x /\ fto x' = fto x).
-  { unfold x', newest_mark. destruct (_ <=? _); [|repeat split; auto]. split; [apply open_leg_set_et, Hx|repeat split]. }
+  { unfold x', newest_mark. destruct (_ <=? _); [|split; [exact Hx|repeat split]]. split; [apply open_leg_set_et, Hx|repeat split]. }
   destruct Hx' as (Hox' & F1 & F2 & F3 & F4 & F5).
   assert (HT2 : Trip (t_book t2) (t_kept t2) x' qs len).
   { rewrite Eb, Ek. eapply Trip_ext; [exact F1|exact F2|exact F3|exact F4|exact F5|exact HT]. }
   assert (Ekeep : fst (keep_promise t2) = t2).
-  { apply (away_no_keep t2 x' rest qs len); rewrite ?Eb, ?Eh2; auto. }
+  { apply (away_no_keep t2 x' rest qs len); rewrite ?Eh2; auto; rewrite Eb; auto. }
   rewrite Ekeep. split; [|split; [exact Eb|exact Hshape]].
   exists x', rest, qs, len. rewrite Eh2. cbn [entries oc]. split; [reflexivity|]. split; [exact Hox'|].
   split; [exact Hstop|]. split; [lia|]. split; [exact HT2|]. split; [exact Hd1|]. split; [exact Hd2|].
   unfold InFlight in *. rewrite F4, F5. split; [exact Hin1|exact Hin2].
+Qed.
+
+
+(** the update after the return flight keeps the promise: the traveller is at home again *)
+Lemma back_update d clk (t : traveller) pend (p : params N) share :
+  J mx clk t -> th_params p = tp -> 1 <= d -> Back d t pend ->
+  let t' := apply_ev mx t (EUpdate p share (d * SecondsInDay)) in
+  Home d t' pend /\ t_book t' = t_book t /\ bot_shape tp (d * SecondsInDay) (t_hist t).
+Proof.
+  intros [HI HP HD HO HC] Hp Hd (y & x & rest & qs & len & El & Hx & Hy & Hstop & Hoc & HT & (Hy1 & Hy2 & Hy3 & Hyd & Hyt) & Hdd & Hpend).
+  cbn zeta. destruct Hrules as (Hfit & Halgo & Hfi0).
+  pose proof HT as [(i & Hi & Ets & Ete & Etr) Hday Hpos Hx1 Hx2 Hx3 Hxd (R1 & R2 & R3 & R4) Hl1 Hl2 Hl3 Hk].
+  destruct (open_leg_plain x Hx) as (Hpx & Hx0 & Hxt & Hxe).
+  destruct (open_leg_plain y Hy) as (Hpy & Hy0 & Hyt' & Hye).
+  set (now := d * SecondsInDay) in *.
+  assert (Hnow : now mod SecondsInDay = 0) by (apply Z_mod_mult).
+  assert (Hdb : days_between (fstart x) now <= TripLength tp).
+  { apply Z.le_trans with (len + 1); [|lia]. apply days_between_le; unfold SecondsInDay in *; lia. }
+  assert (Hstay : FlightInterval tp <= days_between (fend x) (fstart y)).
+  { apply Z.le_trans with (len - 1); [lia|]. apply days_between_ge; unfold SecondsInDay in *; lia. }
+  assert (Hdy : days_between (fstart x) (fstart y) <= TripLength tp).
+  { apply Z.le_trans with len; [|lia]. apply days_between_le; unfold SecondsInDay in *; lia. }
+  assert (Hshape : bot_shape tp now (t_hist t)).
+  { apply (BS_back tp now (t_hist t) x y rest); auto; unfold SecondsInDay in *; lia. }
+  destruct (update_ev_shape t p share now) as (t2 & Eb & Ek & Eh & E'). rewrite E'.
+  destruct (update_out_and_back (t_hist t) tp now [] x [] y rest) as (dy & fy & Eu).
+  { unfold out_and_back, first_start, hd_start. cbn [hd nexts quiet visited_after mem existsb length]. repeat split; auto; lia. }
+  { exact El. }
+  { apply HO. }
+  { unfold itinerary. intros f [<-|[<-|[]]]; split; assumption. }
+  { exact Hstop. }
+  { unfold itinerary. cbn [app length]. exact Hoc. }
+  { exact Hnow. }
+  cbn [rev app] in Eu. unfold first_start in Eu. cbn [hd] in Eu.
+  set (fm := final_mark tp now (fstart x) y) in *.
+  assert (Hfe : is_end fm = false).
+  { unfold fm. rewrite final_mark_is_end by (destruct Hy as [_ Hy']; exact Hy').
+    destruct (Z.eqb_spec (Algo tp) 0) as [C|_]; [contradiction|]. apply Z.ltb_ge. exact Hdb. }
+  assert (Hfs : fstart fm = fstart y /\ fend fm = fend y /\ fdist fm = fdist y).
+  { unfold fm, final_mark. destruct (Algo tp =? 0); cbn zeta;
+      repeat match goal with |- context [if ?c then _ else _] => destruct c end; repeat split. }
+  destruct Hfs as (Hfs & Hfen & Hfd).
+  assert (Eh2 : t_hist t2 = {| entries := fm :: set_et x JEnd :: rest; oc := 0 |}).
+  { rewrite Eh. unfold hist_after_update. rewrite Hp, Eu. reflexivity. }
+  (* the open trip of t2 is [fm; x] *)
+  assert (Hrun : open_run (entries (t_hist t2)) = [fm; set_et x JEnd]).
+  { rewrite Eh2. cbn [entries open_run]. rewrite Hfs, Hfe.
+    destruct (Z.eqb_spec (fstart y) 0) as [C|_]; [contradiction|]. cbn [negb andb fstart set_et is_end et].
+    destruct (Z.eqb_spec (fstart x) 0) as [C|_]; [contradiction|]. cbn [negb andb].
+    rewrite (open_run_stop rest Hstop). reflexivity. }
+  assert (Hsum : sum_dist (open_run (entries (t_hist t2))) = bot_travelled (dist (ffrom x) (fto x)) (dist (fto x) (ffrom x))).
+  { rewrite Hrun. unfold sum_dist, bot_travelled. cbn [fold_left fdist set_et]. rewrite Hfd, Hyd, Hxd. reflexivity. }
+  assert (Hmid2 : mid_trip (t_hist t2) = true).
+  { rewrite Eh2. unfold mid_trip, getf. cbn [entries nth]. rewrite Hfe. apply orb_true_r. }
+  assert (Hne2 : hempty (t_hist t2) = false).
+  { rewrite Eh2. unfold hempty, getf. cbn [entries nth]. rewrite Hfs. apply Z.eqb_neq. exact Hy0. }
+  assert (Hos : open_start (entries (t_hist t2)) = fstart x).
+  { unfold open_start. rewrite Hrun. reflexivity. }
+  assert (Hhd : fend (getf (entries (t_hist t2)) 0) = fend y).
+  { rewrite Eh2. unfold getf. cbn [entries nth]. exact Hfen. }
+  pose proof (promise_kept_when_flown mx t2 i ltac:(rewrite Eb; exact HI) Hi) as Hkept. cbn zeta in Hkept.
+  rewrite Eb, Hos, Hhd, Hsum, Ets, Ete, Etr in Hkept.
+  specialize (Hkept Hmid2 Hne2 ltac:(lia) Hx1 ltac:(unfold SecondsInDay in *; lia) ltac:(unfold SecondsInDay in *; lia) R1 R2 R3).
+  destruct (keep_promise t2) as [t3 kept] eqn:Ek3. destruct Hkept as (_ & Ekept & Hmid3 & _ & Ebook3). cbn [fst].
+  (* the history of t3: the head marked as ended by the traveller's kept promise *)
+  assert (Eh3 : t_hist t3 = set_head_et (t_hist t2) TTEnd).
+  { unfold keep_promise in Ek3. rewrite Hmid2 in Ek3.
+    destruct (trip_start_end_length (t_hist t2)) as [[st en] dd].
+    destruct (keep (t_book t2) st en dd) as [pk|]; [|injection Ek3 as <- _; rewrite Hmid2 in Hmid3; discriminate].
+    unfold end_trip_op in Ek3. rewrite Hne2 in Ek3. injection Ek3 as <- _. reflexivity. }
+  split; [|split; [exact Ebook3|exact Hshape]].
+  rewrite Eh3, Eh2 in Hmid3. unfold set_head_et in Hmid3. cbn [entries] in Hmid3.
+  unfold Home. rewrite Eh3, Eh2. unfold set_head_et. cbn [entries oc getf nth fstart set_et].
+  split; [right; exact Hmid3|]. split; [reflexivity|]. rewrite Hfs.
+  split; [unfold SecondsInDay in *; lia|].
+  rewrite Ekept, Ets. split; [unfold SecondsInDay in *; lia|]. split; [|exact Hpend].
+  intros _ i' Hi' Hne' Hlt. rewrite Ebook3 in *.
+  (* a promise that starts after the kept one is a newer one: it starts after the kept trip has ended *)
+  destruct (Nat.lt_trichotomy i' i) as [L|[->|L]].
+  - pose proof (inv_sep mx _ HI i' i L Hi ltac:(rewrite Ets; lia)) as Hs. rewrite Ete in Hs. unfold SecondsInDay in *. lia.
+  - lia.
+  - pose proof (older_starts_earlier mx (t_book t) i i' HI L Hi' Hne'). lia.
+Qed.
+
+
+(** the first event of the day *)
+Lemma update_step d clk (b : bot) (di : day_input) : BI d clk b -> day_ok tp di ->
+  let e1 := EUpdate (di_params di) (di_share di) (d * SecondsInDay) in
+  let t1 := apply_ev mx (b_trav b) e1 in
+  conforms mx clk (b_trav b) e1 /\ J mx (d * SecondsInDay) t1 /\
+  Links d (t_book t1) (b_pend b) /\ PhM d t1 (b_pend b).
+Proof.
+  intros [HJ Hclk Hd HL HP] (Hp & _). cbn zeta.
+  set (t := b_trav b) in *. set (pend := b_pend b) in *. set (now := d * SecondsInDay).
+  assert (Hnow0 : 0 <= now) by (unfold now, SecondsInDay; lia).
+  assert (Hnowm : now mod SecondsInDay = 0) by (apply Z_mod_mult).
+  assert (Hlen : length (entries (t_hist t)) = MaxFlights) by (apply (j_ord _ _ _ HJ)).
+  assert (Hshape_to : bot_shape tp now (t_hist t) ->
+            conforms mx clk t (EUpdate (di_params di) (di_share di) now) /\
+            J mx now (apply_ev mx t (EUpdate (di_params di) (di_share di) now))).
+  { intros Hs. assert (Hc : conforms mx clk t (EUpdate (di_params di) (di_share di) now)).
+    { apply bot_shape_update_conforms; auto. rewrite Hp. exact Hs. }
+    split; [exact Hc|]. apply (step_J mx Hmx clk t _ HJ Hc). }
+  destruct HP as [HH|[HA|HB]].
+  - (* at home *)
+    destruct (home_update d t pend (di_params di) (di_share di) HH) as (Eh & Ek & Eb).
+    assert (Hs : bot_shape tp now (t_hist t)).
+    { destruct HH as ([He|Hm] & Hoc & _); [apply BS_empty; exact He|apply BS_closed; [exact Hm|left; exact Hoc]]. }
+    destruct (Hshape_to Hs) as [Hc HJ']. split; [exact Hc|]. split; [exact HJ'|].
+    fold now in Eh, Ek, Eb. rewrite Eb. split; [exact HL|]. left.
+    unfold Home in *. rewrite Eh, Ek, Eb. exact HH.
+  - destruct (away_update d clk t pend (di_params di) (di_share di) HJ Hp Hd HA) as (HA' & Eb & Hs).
+    destruct (Hshape_to Hs) as [Hc HJ']. split; [exact Hc|]. split; [exact HJ'|].
+    fold now in Eb. rewrite Eb. split; [exact HL|]. right. exact HA'.
+  - destruct (back_update d clk t pend (di_params di) (di_share di) HJ Hp Hd HB) as (HH' & Eb & Hs).
+    destruct (Hshape_to Hs) as [Hc HJ']. split; [exact Hc|]. split; [exact HJ'|].
+    fold now in Eb. rewrite Eb. split; [exact HL|]. left. exact HH'.
+Qed.
+
+
+(** ---------- planning ---------- *)
+Lemma day_start_ge d ts : 0 <= d -> d * SecondsInDay <= ts -> ts < tmax -> d * SecondsInDay <= day_start ts.
+Proof.
+  intros Hd Hle Ht. unfold day_start, to_epoch_days, days_to_time, two64, tmax, SecondsInDay in *.
+  change (2 ^ 64) with 18446744073709551616. change (2 ^ 62) with 4611686018427387904 in *.
+  assert (Hq : d <= ts / 86400) by (apply Z.div_le_lower_bound; lia).
+  assert (Hq2 : 86400 * (ts / 86400) <= ts) by (apply Z.mul_div_le; lia).
+  rewrite (Z.mod_small (ts / 86400)) by lia. rewrite Z.mod_small by lia. lia.
+Qed.
+
+Lemma prepare_days_ge (bk : book) today len total x : In x (prepare_days bk today len total) -> today <= x.
+Proof.
+  unfold prepare_days.
+  assert (G : forall (ps : list promise) cd acc, today <= cd -> (forall y, In y acc -> today <= y) ->
+            let '(cd', acc') := fold_left (prep_step len) ps (cd, acc) in
+            today <= cd' /\ forall y, In y acc' -> today <= y).
+  { induction ps as [|q r IH]; intros cd acc Hcd Hacc; cbn [fold_left]; [split; assumption|].
+    unfold prep_step at 2.
+    destruct (Z.ltb_spec cd (day_of (p_ts q) - (len - 1))) as [L|L].
+    - apply IH.
+      + destruct (Z.ltb_spec (day_of (p_ts q) - (len - 1)) (day_of (p_te q) + 1)); lia.
+      + intros y Hy. apply in_app_or in Hy. destruct Hy as [Hy|Hy]; [apply Hacc, Hy|apply in_zrange in Hy; lia].
+    - apply IH; [destruct (Z.ltb_spec cd (day_of (p_te q) + 1)); lia|exact Hacc]. }
+  specialize (G (promises_oldest_first bk) today [] ltac:(lia) ltac:(intros y [])).
+  destruct (fold_left _ _ _) as [cd' acc']. destruct G as [G1 G2].
+  intros Hx. apply in_app_or in Hx. destruct Hx as [Hx|Hx]; [apply G2, Hx|apply in_zrange in Hx; lia].
+Qed.
+
+Lemma OutFor_core (j : journey) (p p' : promise) : core p' = core p -> OutFor j p -> OutFor j p'.
+Proof.
+  unfold core. intros E. injection E as E1 E2 _ E4. unfold OutFor. rewrite E1, E2, E4. auto.
+Qed.
+
+(** two entries of a consistent book are for different, non-overlapping trips *)
+Lemma book_disjoint (bk : book) a b : Inv mx bk -> (a < MaxPromises)%nat -> (b < MaxPromises)%nat -> a <> b ->
+  p_ts (getp bk a) <> 0 -> p_ts (getp bk b) <> 0 ->
+  p_te (getp bk a) < p_ts (getp bk b) \/ p_te (getp bk b) < p_ts (getp bk a).
+Proof.
+  intros HI Ha Hb Hab Hna Hnb. destruct (Nat.lt_trichotomy a b) as [L|[E|L]]; [|contradiction|].
+  - right. apply (inv_sep mx _ HI a b L Hb Hnb).
+  - left. apply (inv_sep mx _ HI b a L Ha Hna).
+Qed.
+
+Lemma wfp_range (bk : book) a : Inv mx bk -> (a < MaxPromises)%nat -> p_ts (getp bk a) <> 0 ->
+  0 < p_ts (getp bk a) < p_te (getp bk a) /\ p_te (getp bk a) < tmax.
+Proof. intros HI Ha Hn. destruct (inv_wf mx _ HI a Ha) as [[W0 W1] W]. specialize (W Hn). lia. Qed.
+
+(** where the entries of an accepted proposal come from *)
+Lemma inserted_origin (b b' : book) now c m' : inserted b b' now c -> (m' < MaxPromises)%nat ->
+  core (getp b' m') = c \/ exists m, (m < MaxPromises)%nat /\ core (getp b' m') = core (getp b m).
+Proof.
+  intros (i & Hi & Hc & Hlo & Hhi & _) Hm'.
+  destruct (Nat.lt_trichotomy m' i) as [L|[->|L]].
+  - right. exists m'. split; [exact Hm'|apply Hlo, L].
+  - left. exact Hc.
+  - right. destruct m' as [|m]; [lia|]. exists m. split; [lia|]. apply Hhi; lia.
+Qed.
+
+
+Lemma plan_result (t : traveller) ts te (dd tr : K) now (pr : predictor) :
+  Inv mx (t_book t) -> 0 <= now -> te < tmax ->
+  (exists pp, propose (t_book t) ts te dd tr now pr mx = inl pp /\
+     apply_ev mx t (EPlan ts te dd tr now pr) = set_book t (pp_entries pp) /\
+     plan_okb t (EPlan ts te dd tr now pr) = true /\
+     Inv mx (pp_entries pp) /\ inserted (t_book t) (pp_entries pp) now (ts, te, dd, tr)) \/
+  (apply_ev mx t (EPlan ts te dd tr now pr) = t /\ plan_okb t (EPlan ts te dd tr now pr) = false).
+Proof.
+  intros HI Hnow Hte. cbn [apply_ev plan_okb]. unfold plan.
+  destruct (propose (t_book t) ts te dd tr now pr mx) as [pp|er] eqn:Ep; [|right; split; reflexivity].
+  destruct (propose_spec mx (t_book t) ts te dd tr now pr pp Hmx Hnow Hte HI Ep) as (HI' & Hins & Hv).
+  left. exists pp. unfold make. rewrite Hv, Z.eqb_refl. split; [reflexivity|]. split; [reflexivity|].
+  split; [reflexivity|]. split; [exact HI'|exact Hins].
+Qed.
+
+Lemma NoDup_app_single (l : list Z) x : NoDup l -> ~ In x l -> NoDup (l ++ [x]).
+Proof.
+  intros Hl Hx. induction l as [|a l IH]; cbn [app]; [constructor; [intros []|constructor]|].
+  inversion Hl as [|? ? Ha Hl']; subst. constructor.
+  - intros Hin. apply in_app_or in Hin. destruct Hin as [Hin|[->|[]]]; [contradiction|]. apply Hx. left. reflexivity.
+  - apply IH; [exact Hl'|]. intros Hin. apply Hx. right. exact Hin.
+Qed.
+
+Lemma plan_step d (t1 : traveller) pend (di : day_input) c :
+  J mx (d * SecondsInDay) t1 -> 1 <= d -> Links d (t_book t1) pend -> PhM d t1 pend ->
+  day_ok tp di -> di_plan di = Some c ->
+  In (c_day c) (prepare_days (t_book t1) d (c_len c) (pMaxDays (di_params di))) ->
+  let now := d * SecondsInDay in
+  let e2 := plan_ev now c (di_pred di) in
+  let t2 := apply_ev mx t1 e2 in
+  let pend2 := if plan_okb t1 e2 then pend ++ [out_journey c] else pend in
+  conforms mx now t1 e2 /\ J mx now t2 /\ Links d (t_book t2) pend2 /\ PhM d t2 pend2.
+Proof.
+  intros HJ Hd HL HP (Hp & Hpred & Hdraw & Hc) Ec Hin. rewrite Ec in Hc.
+  destruct Hc as (Cdraw & Clen & Cfi & Ctl & Croute & Cdd & Ctmax). cbn zeta.
+  pose proof HJ as [HI HPos HD HO HC].
+  set (now := d * SecondsInDay) in *.
+  pose proof (prepare_days_ge _ _ _ _ _ Hin) as Hcd.
+  set (ts := c_day c * SecondsInDay) in *.
+  set (te := ts + c_len c * SecondsInDay + (SecondsInDay - 1)) in *.
+  set (tr := bot_travelled (dist (c_from c) (c_to c)) (dist (c_to c) (c_from c))).
+  assert (Hnow1 : SecondsInDay <= now) by (unfold now, SecondsInDay; lia).
+  assert (Hnow0 : 0 <= now) by (unfold now, SecondsInDay; lia).
+  assert (Hts : now <= ts) by (unfold now, ts, SecondsInDay; lia).
+  assert (Hte : ts < te) by (unfold te, SecondsInDay; lia).
+  assert (Ee : plan_ev now c (di_pred di) = EPlan ts te (c_dist c) tr now (di_pred di)) by reflexivity.
+  rewrite Ee.
+  (* the discipline *)
+  assert (Hconf : conforms mx now t1 (EPlan ts te (c_dist c) tr now (di_pred di))).
+  { split; [cbn [ev_time]; lia|]. split; [exact Hnow1|]. split; [exact Ctmax|]. split; [exact Cdd|].
+    split.
+    - intros pp Epp. eapply sane_predictor_keeps_clearances_positive; eauto.
+    - intros Hm. destruct HP as [HH|HA].
+      + destruct HH as (_ & _ & _ & Hk & Hns & _). split; [lia|].
+        intros i Hi [Hne Hlt]. specialize (Hns Hm i Hi Hne Hlt).
+        apply day_start_ge; [lia|exact Hns|]. destruct (wfp_range _ i HI Hi Hne). lia.
+      + exfalso. destruct HA as (x & rest & qs & len & El & Hx & _).
+        destruct (open_leg_plain x Hx) as (_ & Hx0 & _ & Hxe).
+        unfold mid_trip, hempty, getf in Hm. rewrite El in Hm. cbn [nth] in Hm. rewrite Hxe in Hm.
+        rewrite orb_true_r in Hm. discriminate. }
+  split; [exact Hconf|].
+  assert (HJ2 : J mx now (apply_ev mx t1 (EPlan ts te (c_dist c) tr now (di_pred di)))).
+  { apply (step_J mx Hmx now t1 _ HJ Hconf). }
+  split; [exact HJ2|].
+  destruct (plan_result t1 ts te (c_dist c) tr now (di_pred di) HI Hnow0 Ctmax)
+    as [(pp & Ep & Ea & Eok & HI' & Hins)|(Ea & Eok)]; rewrite Ea, Eok; [|split; [exact HL|exact HP]].
+  cbn [t_book set_book].
+  set (b := t_book t1) in *. set (b' := pp_entries pp) in *.
+  destruct Hins as (idx & Hidx & Hcore & Hlo & Hhi & Hdrop).
+  assert (Hins : inserted b b' now (ts, te, c_dist c, tr)) by (exists idx; auto).
+  (* an old promise whose trip has not ended is still there *)
+  assert (Hsurv : forall m, (m < MaxPromises)%nat -> p_ts (getp b m) <> 0 -> now <= p_te (getp b m) ->
+            exists m', (m' < MaxPromises)%nat /\ core (getp b' m') = core (getp b m)).
+  { intros m Hm Hne Hle. eapply promise_of_trip_in_progress_not_dropped; eauto. }
+  (* the new journey *)
+  set (jo := out_journey c).
+  destruct (day_of_build ts (c_r c) (c_dur c) (c_from c) (c_to c) (dist (c_from c) (c_to c)) ltac:(unfold ts; apply Z_mod_mult) Cdraw)
+    as (B1 & B2 & B3 & B4 & B5 & B6 & B7 & B8).
+  assert (Hjd : jday jo = c_day c).
+  { unfold jday, jo, out_journey. cbn [j_flight]. rewrite B4. unfold ts, SecondsInDay. apply Z_div_mult. lia. }
+  assert (Hnewts : p_ts (getp b' idx) = ts /\ p_te (getp b' idx) = te /\ p_trav (getp b' idx) = tr).
+  { unfold core in Hcore. injection Hcore as E1 E2 _ E4. auto. }
+  destruct Hnewts as (N1 & N2 & N3).
+  assert (Hofo : OutFor jo (getp b' idx)).
+  { unfold OutFor, jo, out_journey. cbn [j_flight j_out j_len]. fold jo. rewrite N1, N2, N3, B5, B6, B7, B8.
+    fold (out_journey c). fold jo. rewrite Hjd. unfold ts, te, tr in *. repeat split; auto; try lia. }
+  split.
+  - (* the links between journeys and promises *)
+    constructor.
+    + intros j Hj Hout Hdj. apply in_app_or in Hj. destruct Hj as [Hj|[<-|[]]].
+      * destruct (l_j2p _ _ _ HL j Hj Hout Hdj) as (i & Hi & Hne & Hof).
+        destruct Hof as (O1 & O2 & O3 & Orest).
+        destruct (Hsurv i Hi Hne) as (m' & Hm' & Em').
+        { rewrite O3, O2. unfold now, SecondsInDay in *. lia. }
+        exists m'. split; [exact Hm'|]. pose proof Em' as Em''. unfold core in Em''. injection Em'' as E1 _ _ _.
+        split; [rewrite E1; exact Hne|]. eapply OutFor_core; [exact Em'|]. repeat split; auto; apply Orest.
+      * exists idx. split; [exact Hidx|]. split; [rewrite N1; lia|exact Hofo].
+    + intros i' Hi' Hne' Hle'.
+      destruct (inserted_origin b b' now _ i' Hins Hi') as [Ec'|(m & Hm & Em)].
+      * exists jo. split; [apply in_or_app; right; left; reflexivity|].
+        eapply OutFor_core; [|exact Hofo]. rewrite Ec', Hcore. reflexivity.
+      * pose proof Em as Em'. unfold core in Em'. injection Em' as E1 _ _ _.
+        destruct (l_p2j _ _ _ HL m Hm ltac:(rewrite <- E1; exact Hne') ltac:(rewrite <- E1; exact Hle')) as (j & Hj & Hof).
+        exists j. split; [apply in_or_app; left; exact Hj|]. eapply OutFor_core; [exact Em|exact Hof].
+    + (* one journey a day *)
+      unfold fut. rewrite filter_app, map_app. cbn [filter]. rewrite Hjd.
+      destruct (Z.leb_spec d (c_day c)) as [_|C]; [|lia]. cbn [map]. rewrite Hjd.
+      apply NoDup_app_single; [exact (l_uniq _ _ _ HL)|].
+      intros Hcl. apply in_map_iff in Hcl. destruct Hcl as (j & Ej & Hj). apply filter_In in Hj.
+      destruct Hj as [Hj Hdj]. apply Z.leb_le in Hdj.
+      (* a journey already planned for that day belongs to a promised trip the new one would touch *)
+      assert (Hclash : exists m, (m < MaxPromises)%nat /\ p_ts (getp b m) <> 0 /\ now <= p_te (getp b m) /\
+                 p_ts (getp b m) <= ts <= p_te (getp b m)).
+      { destruct (j_out j) eqn:Ej2.
+        - destruct (l_j2p _ _ _ HL j Hj Ej2 Hdj) as (i & Hi & Hne & O1 & O2 & O3 & _).
+          exists i. split; [exact Hi|]. split; [exact Hne|]. rewrite O3, O2, Ej. fold ts.
+          unfold now, ts, SecondsInDay in *. split; lia.
+        - destruct HP as [HH|HA].
+          + destruct HH as (_ & _ & _ & _ & _ & Hall). rewrite (Hall j Hj Hdj) in Ej2. discriminate.
+          + destruct HA as (x & rest & qs & len & _ & _ & _ & _ & [(i & Hi & Ets & Ete & _) Hday Hpos _ _ _ _ _ Hl1 _ _ _] & Hq1 & Hq2 & _ & Hall).
+            destruct (Hall j Hj Hdj Ej2) as (I1 & I2 & I3 & _).
+            exists i. split; [exact Hi|]. split; [lia|]. rewrite Ets, Ete.
+            assert (Edj : jday j = qs / SecondsInDay + len).
+            { unfold jday, day_of. unfold SecondsInDay in *.
+              assert (E : qs = 86400 * (qs / 86400)) by (pose proof (Z_div_mod_eq_full qs 86400); lia).
+              apply Z.div_unique with (fstart (j_flight j) - (qs + len * 86400)); lia. }
+            unfold ts. rewrite <- Ej, Edj.
+            assert (E : qs = 86400 * (qs / 86400)) by (unfold SecondsInDay in Hday; pose proof (Z_div_mod_eq_full qs 86400); lia).
+            unfold now, SecondsInDay in *. split; lia. }
+      destruct Hclash as (m & Hm & Hne & Hle & Hov).
+      destruct (Hsurv m Hm Hne Hle) as (m' & Hm' & Em'). unfold core in Em'. injection Em' as E1 E2 _ _.
+      assert (Hneq : m' <> idx).
+      { intros ->. rewrite N1 in E1. rewrite N2 in E2. lia. }
+      destruct (book_disjoint b' m' idx HI' Hm' Hidx Hneq ltac:(rewrite E1; exact Hne) ltac:(rewrite N1; lia)) as [D|D];
+        rewrite ?E1, ?E2, ?N1, ?N2 in D; lia.
+  - (* the phase *)
+    destruct HP as [HH|HA]; [left|right].
+    + destruct HH as (H1 & H2 & H3 & H4 & H5 & H6). unfold Home. cbn [t_hist t_kept t_book set_book].
+      split; [exact H1|]. split; [exact H2|]. split; [exact H3|]. split; [exact H4|]. split.
+      * intros Hm i' Hi' Hne' Hlt'.
+        destruct (inserted_origin b b' now _ i' Hins Hi') as [Ec'|(m & Hm' & Em)].
+        -- unfold core in Ec'. injection Ec' as E1 _ _ _. rewrite E1. exact Hts.
+        -- unfold core in Em. injection Em as E1 _ _ _. rewrite E1 in *. apply (H5 Hm m Hm'); assumption.
+      * intros j Hj Hdj. apply in_app_or in Hj. destruct Hj as [Hj|[<-|[]]]; [apply H6; assumption|reflexivity].
+    + destruct HA as (x & rest & qs & len & El & Hx & Hstop & Hoc & HT & Hq1 & Hq2 & (jin & Hjin & Hjo & Hjf) & Hall).
+      exists x, rest, qs, len. cbn [t_hist t_kept t_book set_book].
+      split; [exact El|]. split; [exact Hx|]. split; [exact Hstop|]. split; [exact Hoc|]. split.
+      * destruct HT as [(i & Hi & Ets & Ete & Etr) T2 T3 T4 T5 T6 T7 T8 T9 T10 T11 T12].
+        destruct (Hsurv i Hi ltac:(lia) ltac:(rewrite Ete; unfold now, SecondsInDay in *; lia)) as (m' & Hm' & Em').
+        unfold core in Em'. injection Em' as E1 E2 _ E4.
+        constructor; auto. exists m'. rewrite E1, E2, E4. auto.
+      * split; [exact Hq1|]. split; [exact Hq2|]. split.
+        -- exists jin. split; [apply in_or_app; left; exact Hjin|auto].
+        -- intros j Hj Hdj Hjout. apply in_app_or in Hj. destruct Hj as [Hj|[<-|[]]]; [apply Hall; assumption|].
+           unfold out_journey in Hjout. cbn [j_out] in Hjout. discriminate.
 Qed.
 
 End WithNum.
